@@ -478,10 +478,14 @@ theorem vwlbLoop_skip (dec : Dec) (pre rest : Bytes) (m n i : Nat) :
         | error e => rfl
         | ok e =>
           simp only [bind, Except.bind]
-          rw [slice_skip _ _ _ _ (by omega)]
-          have f1 : pre.length + m + s - pre.length = m + s := by omega
-          have f2 : pre.length + m + e - pre.length = m + e := by omega
-          rw [f1, f2]
+          have c : (pre.length + m + e < pre.length + m + s) ↔ (m + e < m + s) := by omega
+          simp only [c]
+          split
+          · rfl
+          · rw [slice_skip _ _ _ _ (by omega)]
+            have f1 : pre.length + m + s - pre.length = m + s := by omega
+            have f2 : pre.length + m + e - pre.length = m + e := by omega
+            rw [f1, f2]
 
 theorem encRecs_length (sf : Int) (ms : List MarkerSpec) (off : Nat) : (encRecs sf ms off).length = 4 * ms.length + 4 := by
   induction ms generalizing off with
@@ -520,6 +524,7 @@ theorem vwlbLoop_recs (dec : Dec) (sf : Int) (ms : List MarkerSpec) (off : Nat) 
       exact getU_here _ _ _ _ (by omega)
     rw [r1, r2, r3]
     simp only [bind, Except.bind]
+    rw [if_neg (by omega)]
     have hlen : (encRecs sf (m :: ms) off).length = 4 * (ms.length + 1) + 4 := by
       rw [encRecs_length]; simp
     have r4 : slice (encRecs sf (m :: ms) off ++ (P ++ (pool (m :: ms) ++ tail))) (4 * (ms.length + 1) + 4 + off)
